@@ -1,10 +1,16 @@
 import BufProofs.Lemmas.PathLemmas
+import BufProofs.Lemmas.BucketLemmas
 /-
   C13 — No path can escape a bucket's root.  Property theorems only; helper lemmas live in
   BufProofs/Lemmas.
+
+  Vocabulary: a *key* is a list of proper components (non-empty, not "." or "..", no '/');
+  `renderKey k` is its canonical string.  A view is a list of layers (outermost first) over a
+  memory bucket `m`; `fullKey ls` is the key under which the view is rooted in `m`.  "Outside
+  the root" = a key that does not have `fullKey ls` as a component-wise prefix.
 -/
 namespace BufProofs.C13
-open BufModel.Path
+open BufModel.Path BufModel.Bucket
 
 /-- After lexical reduction a relative path is k copies of ".." followed by proper names, and a
     rooted path has no ".." at all. -/
@@ -20,11 +26,160 @@ theorem validate_sound (s p : Str) (h : normalizeAndValidate s = .ok p) :
     ∃ ns : Key, AllProper ns ∧ p = renderKey ns :=
   BufModel.Path.validate_sound s p h
 
--- non-vacuity: a hostile spelling that is accepted, and ones that are rejected
+/-- A validated path joined onto a root key stays under that root
+    (`getExternalPath` of the disk bucket, `MapPath` of a prefix view). -/
+theorem join_under_root (root : Key) (hroot : AllProper root) (s p : Str)
+    (h : normalizeAndValidate s = .ok p) :
+    ∃ k : Key, AllProper k ∧ join [renderKey root, p] = renderKey (root ++ k) := by
+  obtain ⟨k, hk, hp⟩ := BufModel.Path.validate_sound s p h
+  exact ⟨k, hk, by rw [hp, join_keys hroot hk]⟩
+
+/-- The path-wise containment test coincides with the component-prefix relation on keys: "ab"
+    is not under "a". -/
+theorem contains_iff_prefix (a b : Key) (ha : AllProper a) (hb : AllProper b) :
+    equalsOrContainsPath (renderKey a) (renderKey b) = true ↔ a <+: b :=
+  ecp_keys ha hb
+
+/-- view_frame, write half (put): for ANY path string, a successful Put through any nesting of
+    prefix views writes exactly one key, and that key lies under the view's root; every other
+    key of the parent bucket — in particular every key outside the root — keeps its binding. -/
+theorem view_frame_put (ls : List KLayer) (hls : KLayersOK ls) (m m' : Mem) (path : Str) (c : Content)
+    (h : vPut (ls.map KLayer.toLayer) m path c = .ok m') :
+    ∃ kq : Key, AllProper kq ∧ kq ≠ [] ∧ normalizeAndValidate path = .ok (renderKey kq) ∧
+      ∀ k' : Key, AllProper k' →
+        m'.find (renderKey k') = if k' = fullKey ls ++ kq then some c else m.find (renderKey k') := by
+  obtain ⟨kq, hkq, hne, hnv, hm'⟩ := vPut_spec ls hls m m' path c h
+  refine ⟨kq, hkq, hne, hnv, ?_⟩
+  intro k' hk'
+  have hfk : AllProper (fullKey ls ++ kq) := allProper_append.mpr ⟨fullKey_proper hls, hkq⟩
+  by_cases he : k' = fullKey ls ++ kq
+  · subst he; rw [hm', find_cons_eq]; simp
+  · have hne' : renderKey (fullKey ls ++ kq) ≠ renderKey k' := fun e => he (renderKey_inj hfk hk' e).symm
+    rw [hm', find_cons_ne _ _ _ _ hne', find_erase_ne _ _ _ hne', if_neg he]
+
+theorem view_frame_put_outside (ls : List KLayer) (hls : KLayersOK ls) (m m' : Mem) (path : Str) (c : Content)
+    (h : vPut (ls.map KLayer.toLayer) m path c = .ok m') (k' : Key) (hk' : AllProper k')
+    (hout : ¬ fullKey ls <+: k') : m'.find (renderKey k') = m.find (renderKey k') := by
+  obtain ⟨kq, _, _, _, hall⟩ := view_frame_put ls hls m m' path c h
+  rw [hall k' hk', if_neg]
+  intro e; exact hout ⟨kq, e.symm⟩
+
+/-- view_frame, write half (delete). -/
+theorem view_frame_delete (ls : List KLayer) (hls : KLayersOK ls) (m m' : Mem) (path : Str)
+    (h : vDelete (ls.map KLayer.toLayer) m path = .ok m') :
+    ∃ kq : Key, AllProper kq ∧ kq ≠ [] ∧ normalizeAndValidate path = .ok (renderKey kq) ∧
+      ∀ k' : Key, AllProper k' →
+        m'.find (renderKey k') = if k' = fullKey ls ++ kq then none else m.find (renderKey k') := by
+  obtain ⟨kq, hkq, hne, hnv, _, hm'⟩ := vDelete_spec ls hls m m' path h
+  refine ⟨kq, hkq, hne, hnv, ?_⟩
+  intro k' hk'
+  have hfk : AllProper (fullKey ls ++ kq) := allProper_append.mpr ⟨fullKey_proper hls, hkq⟩
+  by_cases he : k' = fullKey ls ++ kq
+  · subst he; rw [hm', find_erase_eq]; simp
+  · have hne' : renderKey (fullKey ls ++ kq) ≠ renderKey k' := fun e => he (renderKey_inj hfk hk' e).symm
+    rw [hm', find_erase_ne _ _ _ hne', if_neg he]
+
+/-- view_frame, write half (delete-all): exactly the keys under `root ++ prefix` disappear. -/
+theorem view_frame_deleteAll (ls : List KLayer) (hls : KLayersOK ls) (m m' : Mem) (pfx : Str)
+    (h : vDeleteAll (ls.map KLayer.toLayer) m pfx = .ok m') :
+    ∃ kq : Key, AllProper kq ∧ normalizeAndValidate pfx = .ok (renderKey kq) ∧
+      ∀ k' : Key, AllProper k' →
+        m'.find (renderKey k') = if fullKey ls ++ kq <+: k' then none else m.find (renderKey k') := by
+  obtain ⟨kq, hkq, hnv, hm'⟩ := vDeleteAll_spec ls hls m m' pfx h
+  refine ⟨kq, hkq, hnv, ?_⟩
+  intro k' hk'
+  have hfk : AllProper (fullKey ls ++ kq) := allProper_append.mpr ⟨fullKey_proper hls, hkq⟩
+  rw [hm', find_filter m (fun s => !equalsOrContainsPath (renderKey (fullKey ls ++ kq)) s)]
+  by_cases hp : fullKey ls ++ kq <+: k'
+  · have := (ecp_keys hfk hk').mpr hp
+    simp [this, hp]
+  · have : equalsOrContainsPath (renderKey (fullKey ls ++ kq)) (renderKey k') = false := by
+      cases hh : equalsOrContainsPath (renderKey (fullKey ls ++ kq)) (renderKey k') with
+      | false => rfl
+      | true => exact absurd ((ecp_keys hfk hk').mp hh) hp
+    simp [this, hp]
+
+theorem view_frame_deleteAll_outside (ls : List KLayer) (hls : KLayersOK ls) (m m' : Mem) (pfx : Str)
+    (h : vDeleteAll (ls.map KLayer.toLayer) m pfx = .ok m') (k' : Key) (hk' : AllProper k')
+    (hout : ¬ fullKey ls <+: k') : m'.find (renderKey k') = m.find (renderKey k') := by
+  obtain ⟨kq, _, _, hall⟩ := view_frame_deleteAll ls hls m m' pfx h
+  rw [hall k' hk', if_neg]
+  intro hp; exact hout (List.IsPrefix.trans (List.prefix_append _ _) hp)
+
+/-- view_frame, read half (get / stat): whatever is returned through a view (prefix and filter
+    layers in any nesting) is the content stored at a key under the view's root. -/
+theorem view_frame_get (ls : List KLayer) (hls : KLayersOK ls) (m : Mem) (path : Str) (c : Content)
+    (h : vGet (ls.map KLayer.toLayer) m path = .ok c) :
+    ∃ kq : Key, AllProper kq ∧ kq ≠ [] ∧ normalizeAndValidate path = .ok (renderKey kq) ∧
+      m.find (renderKey (fullKey ls ++ kq)) = some c :=
+  vGet_spec ls hls m path c h
+
+/-- view_frame, read half (walk): every object reported by a walk through a view is stored
+    under the view's root and under the requested prefix. -/
+theorem view_frame_walk (ls : List KLayer) (hls : KLayersOK ls) (m : Mem) (hm : KeysValid m)
+    (pfx : Str) (objs : List (Str × Content))
+    (h : vWalk (ls.map KLayer.toLayer) m pfx = .ok objs) :
+    ∃ kq : Key, AllProper kq ∧ normalizeAndValidate pfx = .ok (renderKey kq) ∧
+      ∀ qc ∈ objs, ∃ kk : Key, AllProper kk ∧ qc.1 = renderKey kk ∧ kq <+: kk ∧
+        (renderKey (fullKey ls ++ kk), qc.2) ∈ m :=
+  vWalk_sound ls hls m hm pfx objs h
+
+/-- Escaping names are rejected: no operation through any view succeeds on a path that
+    validation refuses (paths cleaning to "..", "../…" or "/…"). -/
+theorem escape_rejected (ls : List KLayer) (hls : KLayersOK ls) (m : Mem) (path : Str) (e : PErr)
+    (hrej : normalizeAndValidate path = .error e) (c : Content) :
+    (∀ m', vPut (ls.map KLayer.toLayer) m path c ≠ .ok m') ∧
+    (∀ m', vDelete (ls.map KLayer.toLayer) m path ≠ .ok m') ∧
+    (∀ m', vDeleteAll (ls.map KLayer.toLayer) m path ≠ .ok m') ∧
+    (∀ c', vGet (ls.map KLayer.toLayer) m path ≠ .ok c') := by
+  refine ⟨?_, ?_, ?_, ?_⟩
+  · intro m' h; obtain ⟨_, _, _, hnv, _⟩ := vPut_spec ls hls m m' path c h; rw [hrej] at hnv; cases hnv
+  · intro m' h; obtain ⟨_, _, _, hnv, _⟩ := vDelete_spec ls hls m m' path h; rw [hrej] at hnv; cases hnv
+  · intro m' h; obtain ⟨_, _, hnv, _⟩ := vDeleteAll_spec ls hls m m' path h; rw [hrej] at hnv; cases hnv
+  · intro c' h; obtain ⟨_, _, _, hnv, _⟩ := vGet_spec ls hls m path c' h; rw [hrej] at hnv; cases hnv
+
+/-- Exactly which cleaned forms are rejected. -/
+theorem rejected_iff (s : Str) :
+    (∃ e, normalizeAndValidate s = .error e) ↔
+      (isAbs (clean s) = true ∨ clean s = dotdot ∨ jumpPrefix.isPrefixOf (clean s) = true) := by
+  unfold normalizeAndValidate
+  simp only
+  by_cases h1 : isAbs (clean s) = true
+  · simp [h1]
+  · by_cases h2 : (clean s = dotdot || jumpPrefix.isPrefixOf (clean s)) = true
+    · simp only [h1, h2, if_true, Bool.false_eq_true, if_false]
+      simp at h2; simp [h2]
+    · simp only [h1, h2, Bool.false_eq_true, if_false]
+      simp at h2; simp [h2]
+
+/-- Archive entries (tar / zip): an entry is written only to a non-empty key of proper names,
+    a suffix of its validated name. -/
+theorem archive_entry_contained (name : Str) (n : Nat) (f : Str → Bool) (p : Str)
+    (h : unmapArchivePath name n f = .ok (some p)) :
+    ∃ kf k : Key, AllProper kf ∧ normalizeAndValidate name = .ok (renderKey kf) ∧
+      AllProper k ∧ k ≠ [] ∧ p = renderKey k ∧ k = kf.drop n :=
+  unmapArchivePath_sound name n f p h
+
+/-- The memory bucket's invariant (every key is a rendered non-empty key, no key twice) is
+    preserved by every successful write through any view. -/
+theorem invariant_preserved_put (ls : List KLayer) (hls : KLayersOK ls) (m m' : Mem) (path : Str) (c : Content)
+    (hv : KeysValid m) (hn : NodupKeys m)
+    (h : vPut (ls.map KLayer.toLayer) m path c = .ok m') : KeysValid m' ∧ NodupKeys m' := by
+  obtain ⟨kq, hkq, hne, _, hm'⟩ := vPut_spec ls hls m m' path c h
+  have hfk : AllProper (fullKey ls ++ kq) := allProper_append.mpr ⟨fullKey_proper hls, hkq⟩
+  rw [hm']
+  exact ⟨keysValid_cons (keysValid_erase hv _) hfk (by simp [hne]) c, nodupKeys_put hn _ c⟩
+
+-- non-vacuity: hostile spellings that are accepted / rejected; a concrete view history
 example : normalizeAndValidate "a//./b/../c/".toList = .ok "a/c".toList := by decide
 example : normalizeAndValidate "a/../..".toList = .error .outsideContext := by decide
 example : normalizeAndValidate "..".toList = .error .outsideContext := by decide
 example : normalizeAndValidate "/etc".toList = .error .notRelative := by decide
+example : KLayersOK [.pre ["a".toList], .pre ["x".toList, "y".toList]] := by
+  refine ⟨?_, ?_, trivial⟩ <;> intro n hn <;> simp at hn <;> (try rcases hn with rfl | rfl) <;> (try subst hn) <;> decide
+example : vPut ([KLayer.pre ["a".toList]].map KLayer.toLayer) [] "q/../f".toList "C" =
+    .ok [("a/f".toList, "C")] := by decide
+example : unmapArchivePath "top/../../evil".toList 0 (fun _ => true) = .error .outsideContext := by decide
 /-- The pre-fix validator accepted "..": the recorded finding (fixed in /repo 8b9cf6b). -/
 theorem validate_old_counterexample : normalizeAndValidateOld "a/../..".toList = .ok "..".toList := by decide
 
